@@ -5,12 +5,16 @@ from .. import common, sandbox, wproxy, rawhttp, standin
 USERS = ["root", "alice", "bob", "gidzero"]
 
 
+PROGS = ["proga", "progb", "progc"]
+
+
 def user_rules():
-    privs = [{"name": "p_" + u, "path": "/u/" + u} for u in USERS]
+    """/u/<user>/... only for that user; /p/<program>/... only for a process running that program (by process name)"""
+    privs = [{"name": "p_" + u, "path": "/u/" + u} for u in USERS] + [{"name": "pp_" + g, "path": "/p/" + g} for g in PROGS]
     return {"defaultAccess": "deny", "mode": "enforce", "id": "c07",
-            "rules": {"privileges": privs, "roles": [{"name": "r_" + u, "privileges": ["p_" + u]} for u in USERS],
-                      "identities": [{"name": "i_" + u, "userName": u} for u in USERS],
-                      "roleAssignments": [{"role": "r_" + u, "identities": ["i_" + u]} for u in USERS]}}
+            "rules": {"privileges": privs, "roles": [{"name": "r_" + u, "privileges": ["p_" + u]} for u in USERS] + [{"name": "rp_" + g, "privileges": ["pp_" + g]} for g in PROGS],
+                      "identities": [{"name": "i_" + u, "userName": u} for u in USERS] + [{"name": "ip_" + g, "processName": g} for g in PROGS],
+                      "roleAssignments": [{"role": "r_" + u, "identities": ["i_" + u]} for u in USERS] + [{"role": "rp_" + g, "identities": ["ip_" + g]} for g in PROGS]}}
 
 
 def summaries_by_url(path):
@@ -112,6 +116,29 @@ def worker(args, scratch):
             bump("port_reuse_fresh_record" if fresh else "port_reuse_no_record")
             with lock:
                 res["nontrivial"].append(common.sha(["reuse", fresh, a.user, b.user, pair % 7]))
+        # ---- history 8: a process that becomes another program (execve, same pid) between two connections: the second connection is
+        # judged as the program that made it, not as the program an earlier connection of that pid belonged to
+        for k in range(args.get("exec_histories", 4)):
+            e = w.identity(r.choice(["alice", "bob", "root"]), PROGS[0], ["--k", str(k)], exec_capable=True)
+            seq = [PROGS[0]] + [r.choice(PROGS[1:]) for _ in range(r.randrange(1, 3))]
+            for gi, prog in enumerate(seq):
+                if gi > 0:
+                    e.exec_to(prog, ["--gen", str(gi)])
+                conn = w.open("imds", e)
+                for target_prog in PROGS:
+                    vid = "c07-%d-x%d-%d-%s" % (args["shard"], k, gi, target_prog)
+                    conn.send(rawhttp.build_request("GET", "/p/%s/%s" % (target_prog, vid), [("x-vf-id", vid)]))
+                    st = conn.read_response().status
+                    exp = 200 if target_prog == prog else 403
+                    with lock:
+                        res["evaluations"] += 1
+                    if st != exp:
+                        viol("connection-judged-as-the-program-of-an-earlier-connection-of-the-same-pid", {"pid": e.pid, "programs_in_this_pid": seq[:gi + 1], "current_program": prog,
+                                                                                                         "url_for_program": target_prog, "status": st, "expected": exp})
+                conn.close()
+            bump("exec_histories")
+            with lock:
+                res["nontrivial"].append(common.sha(["exec", len(seq), k % 5]))
         # ---- history 4: an attributed connection that never sends a request; its record must still be consumed at accept
         for k in range(args["pairs"] // 3):
             a = r.choice(idents)
